@@ -1,6 +1,22 @@
 import PqlModel.Props.C11
+import PqlModel.Props.C11b
 #print axioms Pql.C11.C11_children_complete
 #print axioms Pql.C11.C11_render_props_complete
 #print axioms Pql.C11.C11_nil_guarded
 #print axioms Pql.C11.C11_default_panics
 #print axioms Pql.C11.C11_model_matches_walk_table
+#print axioms Pql.C11.C11_children_size
+#print axioms Pql.C11.walk_eq_preorder
+#print axioms Pql.C11.walk_eq_preNode
+#print axioms Pql.C11.C11_walk_unfold
+#print axioms Pql.C11.C11_no_panic
+#print axioms Pql.C11.C11_visits_all
+#print axioms Pql.C11.C11_visits_sublist
+#print axioms Pql.C11.C11_call_index
+#print axioms Pql.C11.C11_prune
+#print axioms Pql.C11.C11_prune_inner
+#print axioms Pql.C11.C11_descend_inner
+#print axioms Pql.C11.C11_no_nil
+#print axioms Pql.C11.C11_parsed_expr_complete
+#print axioms Pql.C11.C11_parsed_complete
+#print axioms Pql.C11.C11_parsed_walk
